@@ -589,6 +589,9 @@ func c06Run(cfg c06Cfg, hist []c06Op, finish bool) (w *c06World, ok bool) {
 			return w, false
 		}
 		w.apply(o)
+		if os.Getenv("VERIF_C06_DEBUG") != "" {
+			fmt.Printf("DEBUG after %v: %s\n", o, w.key())
+		}
 		if w.viol != "" {
 			w.viol = fmt.Sprintf("op %d %v: %s", i, o, w.viol)
 			return w, true
@@ -614,12 +617,27 @@ type c06Search struct {
 	deadline  int64
 	capped    bool
 	pinChecks int64
+	prefixNA  bool
+	prefix    []c06Op // the search starts from the state this history reaches (a non-initial state)
 }
 
 func (s *c06Search) bfs() {
 	type node struct{ hist []c06Op }
-	frontier := []node{{nil}}
+	frontier := []node{{s.prefix}}
 	s.seen = map[string]bool{}
+	if len(s.prefix) > 0 {
+		w, ok := c06Run(s.cfg, s.prefix, false)
+		v := w.viol
+		w.close()
+		if !ok {
+			s.prefixNA = true // the prefix is not applicable in this configuration (reported)
+			return
+		}
+		if v != "" {
+			s.viol, s.violHist = v, s.prefix
+			return
+		}
+	}
 	for depth := 0; depth < s.maxDepth && len(frontier) > 0 && s.viol == ""; depth++ {
 		var next []node
 		for _, nd := range frontier {
@@ -686,9 +704,12 @@ func c06Sizes(cfg c06Cfg) []int {
 	return out
 }
 
-func c06Alphabet(cfg c06Cfg, bidir bool, reduced bool) []c06Op {
+func c06Alphabet(cfg c06Cfg, bidir bool, reduced bool, sizesOpt ...[]int) []c06Op {
 	var a []c06Op
 	sizes := c06Sizes(cfg)
+	if len(sizesOpt) > 0 {
+		sizes = sizesOpt[0]
+	}
 	sides := []int{0}
 	if bidir {
 		sides = []int{0, 1}
@@ -743,7 +764,10 @@ func testVerifC06(t *testing.T, prop string) {
 			t.Fatalf("replay params: %v", err)
 		}
 		for i := 0; i < 5; i++ {
-			wd, _ := c06Run(rp.Cfg, rp.Hist, true)
+			wd, ok := c06Run(rp.Cfg, rp.Hist, true)
+			if !ok {
+				fmt.Printf("REPLAY note: an operation of the history is not enabled\n")
+			}
 			wd.close()
 			if wd.viol == "" {
 				wd, _ = c06Run(rp.Cfg, rp.Hist, false)
@@ -758,9 +782,9 @@ func testVerifC06(t *testing.T, prop string) {
 		}
 		return
 	}
-	depthUni, depthBi := 4, 3
+	depthUni, depthBi, depthPre := 4, 3, 3
 	if w.thorough() {
-		depthUni, depthBi = 4, 4 // (uni depth 5 does not fit the thorough budget: 18 searches of ~10^8 transitions)
+		depthUni, depthBi, depthPre = 4, 4, 3 // (uni depth 5 does not fit the thorough budget: 18 searches of ~10^8 transitions)
 	}
 	// a handful of deeper two-directional histories around the buffer swap of ReleaseReadAndReuse are always run
 	extra := [][]c06Op{
@@ -808,6 +832,48 @@ func testVerifC06(t *testing.T, prop string) {
 			}
 			if len(w.out.Samples) < 2 && len(s.seen) > 0 {
 				w.out.Samples = append(w.out.Samples, map[string]interface{}{"scenario": name, "alphabet_size": len(s.alphabet), "depth": s.maxDepth, "alphabet_sample": fmt.Sprint(s.alphabet[:8])})
+			}
+			w.out.Scenarios = append(w.out.Scenarios, &scenarioResult{Name: name, Params: cfg, Result: res})
+		}
+		// searches from non-initial states (both directions, the reduced alphabet): states that need five to seven
+		// operations to set up and are therefore beyond the depth of the searches above
+		c := int(cfg.Pairs[0].Size)
+		for pi, pre := range [][]c06Op{
+			{{'X', 0, 1}, {'r', 1, 1}, {'L', 1, 0}},                                                               // both ends exist (the server's end only exists once a first message arrived)
+			{{'X', 0, c}, {'X', 1, c}, {'r', 0, 1}, {'r', 1, c}, {'U', 1, 0}},                                     // B reuses its read buffer (a slice of the smallest class) for writing while A sits on a partly read backlog
+			{{'X', 0, c + 1}, {'X', 1, c}, {'r', 0, 1}, {'r', 1, c + 1}, {'U', 1, 0}},                             // the same with a larger reused slice
+			{{'X', 0, c + 1}, {'r', 1, c + 1}, {'U', 1, 0}, {'W', 1, 1}, {'F', 1, 0}, {'r', 0, 1}, {'U', 0, 0}}, // both ends reused
+			{{'X', 0, 2*c + 1}, {'p', 1, c + 1}, {'r', 1, 1}},                                                      // pinned across slices, cursor inside the first
+			{{'X', 0, c}, {'X', 0, c + 1}, {'r', 1, 1}, {'X', 1, 1}},                                               // two messages behind a partly read one, traffic the other way
+		} {
+			name := fmt.Sprintf("c06/%s-hog%d-from-state%d", cfg.Name, cfg.Hog, pi)
+			if !w.mine() {
+				continue
+			}
+			alpha := c06Alphabet(cfg, true, true)
+			if !w.thorough() {
+				if cfg.Hog != 0 {
+					continue // (quick: the exhaustion patterns are left to the thorough tier)
+				}
+				alpha = c06Alphabet(cfg, true, true, []int{1, c, c + 1})
+			}
+			s := &c06Search{cfg: cfg, alphabet: alpha, maxDepth: depthPre, deadline: w.deadline, prefix: pre}
+			s.bfs()
+			res := &vrt.Result{Name: name, Execs: s.trans, Transitions: s.trans, States: s.states, MaxDepth: s.maxReach, Exhaustive: !s.capped,
+				Outcomes: map[string]int64{}, Counts: map[string]int64{"completed_histories": s.histories, "pin_rechecks": s.pinChecks}, FailCount: map[string]int64{}}
+			if s.capped {
+				res.CapHit = "deadline"
+			}
+			res.Outcomes[fmt.Sprintf("%s-depth%d-states%d", name, s.maxDepth, s.states)] = s.states
+			if s.prefixNA {
+				res.Counts["prefix-not-applicable"]++
+				fmt.Printf("NOTE %s: the prefix %v is not applicable\n", name, pre)
+			}
+			if s.viol != "" {
+				sig := c06Sig(s.viol)
+				res.Failures = append(res.Failures, &vrt.Failure{Kind: "oracle", Sig: sig, Msg: fmt.Sprintf("%s history %v: %s", name, s.violHist, s.viol),
+					Params: map[string]interface{}{"cfg": cfg, "hist": s.violHist}})
+				res.FailCount[sig]++
 			}
 			w.out.Scenarios = append(w.out.Scenarios, &scenarioResult{Name: name, Params: cfg, Result: res})
 		}
